@@ -11,7 +11,7 @@ from concurrent.futures import ThreadPoolExecutor
 
 from . import ssa as S
 from .spec import Specs, SpecError
-from .verifier import Verifier
+from .verifier import Verifier, LemmaVerifier
 from .values import Unsupported
 from .exec import short_fn
 from . import solve
@@ -78,6 +78,11 @@ class Session(object):
                 continue
             if prop is None or prop in sp.props or any(prop in (c.props or ()) for c in sp.ensures):
                 out.append(full)
+        for n, lem in sorted(self.specs.lemmas.items()):
+            if lem.trusted:
+                continue
+            if prop is None or prop in lem.props:
+                out.append('lemma.' + n)
         return out
 
     def verify_function(self, full, timeout=10, jobs=16, prop=None, verbose=False):
@@ -85,8 +90,13 @@ class Session(object):
         res = {'func': full, 'obligations': [], 'error': None}
         t0 = time.time()
         try:
-            v = Verifier(self.prog, self.specs, full, resolver=self.resolver)
-            v.spec = spec
+            if full.startswith('lemma.'):
+                lem = self.specs.lemmas[full[6:]]
+                v = LemmaVerifier(self.prog, self.specs, lem, lem.pkg, resolver=self.resolver)
+                spec = None
+            else:
+                v = Verifier(self.prog, self.specs, full, resolver=self.resolver)
+                v.spec = spec
             if spec:
                 # re-read options that depend on the spec
                 v.__init__(self.prog, self.specs, full, resolver=self.resolver)
@@ -162,6 +172,8 @@ def main(argv=None):
         funcs = []
         for f in (a.func or []):
             cands = [x for x in ses.prog.funcs if x == f or short_fn(x) == f or short_fn(x).split('.', 1)[-1] == f]
+            if f.startswith('lemma.') and f[6:] in ses.specs.lemmas:
+                cands = [f]
             funcs += cands
         if not funcs:
             funcs = ses.claimed_functions()
